@@ -370,7 +370,24 @@ pub fn glue11(out: &mut Out, thorough: bool) {
             }
         }
     }
-    out.notes.insert("front-ends".into(), format!("{} searches through the WASM wrapper, {} command-line games from mating nets", ps.len().saturating_sub(20), mates.len()));
+    // command line started on a position that is already over (checkmate, stalemate; both colours): the game loop tests
+    // for the end of the game only AFTER a move, so the first search runs on a position without legal moves and must
+    // come back with "no move" (the program then says DRAW (MATERIAL) and ends normally)
+    for fen in ["7k/5Q2/6K1/8/8/8/8/8 b - - 0 1", "7k/6Q1/6K1/8/8/8/8/8 b - - 0 1", "R5k1/5ppp/8/8/8/8/8/6K1 b - - 0 1",
+                "8/8/8/8/8/6k1/6q1/7K w - - 0 1", "8/8/8/8/8/6k1/5q2/7K w - - 0 1", "6k1/8/8/8/8/8/5PPP/r5K1 w - - 12 40"] {
+        let Some(p) = pos64_of_fen(fen) else { continue };
+        out.case("cli-terminal-start", true, format!("expect game-over #cli-terminal {p}"), || {
+            let (code, _so, lines) = cli_run(Some(fen), 20000, false);
+            match code {
+                Some(0) => "game-over".into(),
+                Some(c) => format!("trap exit={c} {}", lines.iter().find(|l| l.contains("panicked")).cloned().unwrap_or_default().chars().take(80).collect::<String>()),
+                None => "trap hang: a position without legal moves still being searched after 20 s".into(),
+            }
+        });
+        // (that these positions have no legal move is the specification's word, not the implementation's)
+        out.record("cli-terminal-start", true, format!("pos legals {p}"), "0".into());
+    }
+    out.notes.insert("front-ends".into(), format!("{} searches through the WASM wrapper, {} command-line games from mating nets, 6 command-line starts on finished games", ps.len().saturating_sub(20), mates.len()));
 }
 
 /// C17 through the command line: started without a position, the program walks the book by random choices with
